@@ -4,17 +4,6 @@ From RRE Require Import Base.Sx Base.Float Base.Num Model.ExprShape Model.Forwar
 From Coq Require Import Lia.
 Open Scope Z_scope.
 
-(** [inert t]: scanning t (from outside any string literal, at any depth >= 0) only copies it: no split,
-    same depth afterwards, outside any string literal afterwards *)
-Definition inert (op : Z) (t : str) : Prop :=
-  forall rest depth cur, 0 <= depth ->
-    split_logical op (t ++ rest) depth None cur false = split_logical op rest depth None (rev t ++ cur) false.
-
-(** [inert_in t]: the same, but only required at depth >= 1 (t may contain && or || at its own top level) *)
-Definition inert_in (op : Z) (t : str) : Prop :=
-  forall rest depth cur, 1 <= depth ->
-    split_logical op (t ++ rest) depth None cur false = split_logical op rest depth None (rev t ++ cur) false.
-
 Lemma inert_weaken op t : inert op t -> inert_in op t.
 Proof. intros H rest depth cur Hd. apply H. lia. Qed.
 
